@@ -103,10 +103,14 @@ class GCWorld(gen.World):
         #  blob here and a manifest wherever it is listed as one)
         opaque = self.rng.choice(["application/octet-stream", MT_LAYER])
         as_blob = [c for c in children if self.rng.random() < 0.2]
-        body = index_manifest([{"mediaType": opaque if c in as_blob else g.man[c]["mt"], "digest": c, "size": len(g.bytes[c])} for c in children],
+        # (or under the media type of the other kind of manifest: an image listed as an index, an index listed as an image)
+        swap = {MT_OCI_M: MT_OCI_I, MT_DOCK_M: MT_DOCK_I, MT_OCI_I: MT_OCI_M, MT_DOCK_I: MT_DOCK_M}
+        mistyped = [c for c in children if c not in as_blob and self.rng.random() < 0.12]
+        body = index_manifest([{"mediaType": opaque if c in as_blob else (swap[g.man[c]["mt"]] if c in mistyped else g.man[c]["mt"]), "digest": c, "size": len(g.bytes[c])} for c in children],
                               subject=sd, media_type=mt, annotations={"n": str(len(self.steps))})
         d = self.push(repo, body, mt, list(children), subject=subject, tag=tag, kind="index")
         g.man[d]["opaque"] = as_blob
+        g.man[d]["mistyped"] = mistyped
         return d
 
     def build(self, repo):
